@@ -3,6 +3,7 @@
 (a) round trip: E1 circuits x output policies x label schemes x storage orders:
     parse(format(c)) and load(save(c)) must equal c (gates with operand order, input
     order, output order).
+(a') long lines: gates with 5..130 operands and labels of 1..66 characters.
 (b) layouts: for small netlists every permutation of the text's lines, operator-name
     case variants, optional-space variants, comment / blank lines at every position,
     BUFF and vdd aliases; the parsed circuit must be the netlist the text denotes.
@@ -21,7 +22,7 @@ ID = 'C11'
 SMALL = space.alphabet('NOT', 'AND', 'GT', 'ALWAYS_TRUE')
 ALPHAS = {'FULL': space.FULL, 'FULL_NO3': space.FULL_NO3, 'SMALL': SMALL, 'S4': space.S4}
 
-POOL = ['a', 'g1', 'input1', 'INPUTS', 'Output_x', 'outputs', 'AND', 'vdd', 'BUFF', 'x@y', 'n.1', 'b[0]',
+POOL = ['core_vdd', 'xVDD', 'a', 'g1', 'input1', 'INPUTS', 'Output_x', 'outputs', 'AND', 'vdd', 'BUFF', 'x@y', 'n.1', 'b[0]',
         '_u', '1st', 'INPUT', 'OUTPUT', 'not', 'vddx', 'inputoutput', 'OuTpUt9']
 
 
@@ -34,8 +35,43 @@ def schemes(p):
     return out
 
 
+def check_wide(acc):
+    """Long bench lines: gates with many operands and long labels; round trip by string and by file."""
+    from cirbo.core.circuit import Circuit, gate as G
+
+    for arity in (5, 12, 24, 25, 26, 32, 40, 64, 130):
+        for t in ('AND', 'XOR', 'NOR'):
+            for lablen in (1, 9, 66):
+                if arity * (lablen + 2) > 12000:
+                    continue
+                acc.states += 1
+                acc.traces += 1
+                acc.transitions += 3
+                case = {'wide': {'arity': arity, 'type': t, 'label_length': lablen}}
+                c = Circuit()
+                ins = [('i%d_' % j) + 'q' * max(0, lablen - len('i%d_' % j)) for j in range(arity)]
+                c.add_inputs(ins)
+                c.emplace_gate('wide_' + 'w' * lablen, getattr(G, t), tuple(ins))
+                c.emplace_gate('neg', G.NOT, ('wide_' + 'w' * lablen,))
+                c.set_outputs(['neg', 'wide_' + 'w' * lablen])
+                want = refmodel.abstract(c)
+                try:
+                    text = c.format_circuit()
+                    c2 = Circuit.from_bench_string(text)
+                    path = os.path.join(_tmpdir(), f'w{os.getpid()}.bench')
+                    c.save_to_file(path)
+                    c3 = Circuit.from_bench_file(path)
+                except Exception as e:  # noqa: BLE001
+                    acc.violation(f'rt/wide-gate-raises-{type(e).__name__}', case, repr(e)[:200])
+                    continue
+                if not _same(refmodel.abstract(c2), want) or not _same(refmodel.abstract(c3), want):
+                    acc.violation('rt/wide-gate-round-trip-differs', case, '')
+                acc.outcome('rt', ('wide', arity, lablen))
+    acc.sample({'wide': {'arity': 40, 'type': 'XOR', 'label_length': 1}})
+
+
 def plan(tier):
-    t = []
+    t = [{'kind': 'wide', 'n': 0, 'k': 0, 'prefix': [], 'alpha': 'FULL'}]
 
     def fam(kind, n, k, a, split, **kw):
         for tk in space.tasks(n, k, ALPHAS[a], split):
@@ -64,7 +100,7 @@ def plan(tier):
 
 def describe(tier):
     return {
-        'rule': 'rt: circuit of F(n,k,A) x output policy x 20 label schemes (keyword-prefixed, operator-named, '
+        'rule': 'wide: gates with up to 130 operands / 66-character labels (long lines) by string and file; rt: circuit of F(n,k,A) x output policy x 22 label schemes (keyword-prefixed, operator-named, '
         'punctuated, digit-first labels rotated through every node position) x storage orders (creation order, '
         'reversed via rename, inputs reordered) -> parse(format(c)) == c and from_bench_file(save_to_file(c)) == c. '
         'perm: every permutation of the text lines (INPUT/gate/OUTPUT lines, use before definition, outputs first). '
@@ -318,6 +354,8 @@ def check_spell(n, gates, acc):
 
 
 def run_task(task, acc):
+    if task['kind'] == 'wide':
+        return check_wide(acc)
     alpha = ALPHAS[task['alpha']]
     for gates in space.enum_gates(task['n'], task['k'], alpha, space.prefix_from_task(task)):
         if task['kind'] == 'rt':
@@ -333,6 +371,8 @@ def replay(case, acc):
 
     if 'task' in case:
         return run_task(case['task'], acc)
+    if 'wide' in case:
+        return check_wide(acc)
     if 'bench' in case:
         # the denoted netlist is re-derived by the shim's independent reader
         import mockturtle_wrapper as mw
